@@ -64,13 +64,13 @@ fn run_op(op: &str) -> String {
             }
         });
         match res {
-            None => "ret PANIC | -".to_string(),
+            None => format!("ret PANIC | - | blen={}", repr.header_len()),
             Some(()) => {
                 let mut whole = buf.clone();
                 if !full {
                     whole.extend_from_slice(&data);
                 }
-                format!("ret {} | {}", show_bytes(&buf), parse(&whole))
+                format!("ret {} | {} | blen={}", show_bytes(&buf), parse(&whole), repr.header_len())
             }
         }
     } else {
